@@ -5,6 +5,7 @@ import OrbitModel.Proofs.GenEqLoadComplete
 import OrbitModel.Proofs.StoreReach
 import OrbitModel.Proofs.CrashExample
 import OrbitModel.Proofs.CacheReach
+import OrbitModel.Proofs.LoadChecked
 /-!
 # C05 — acknowledged writes and replicated entries survive restart and crashes
 
@@ -121,5 +122,28 @@ theorem refused_ancestor_lost_the_valid_entries_above_it_before_the_fix :
     loadHead acl (ownFetch 1 fetch) (-1) (Log.empty 1) 2 = .ok (Log.empty 1) ∧
     (∃ L, loadHead acl (goodFetch acl 1 fetch) (-1) (Log.empty 1) 2 = .ok L ∧ good ∈ L.entries ∧ bad ∉ L.entries) := by
   refine ⟨rfl, ⟨_, rfl, ?_, ?_⟩⟩ <;> decide
+
+/-- **a reload says when it could not read what the cache points to** (after the `fix:` commit,
+finding F32): `Load` succeeds only if every cached head came back from the fetcher, and is then the
+modelled load; a cached head that did not come back (ended context, unreachable block) is an error,
+whatever the other heads and the limit -/
+theorem reload_succeeds_only_over_every_cached_head (acl : Acl) (s s' : Store) (fetch : Nat → OMap)
+    (amount : Int) (mh : Option Int) :
+    (s.loadChecked acl fetch amount mh = .ok s' ↔
+      (∀ h ∈ s.cachedHeads, has (fetch h) h = true) ∧ s.load acl fetch amount mh = .ok s') ∧
+    (∀ h ∈ s.cachedHeads, has (fetch h) h = false → s.loadChecked acl fetch amount mh = .error .notFound) :=
+  ⟨loadChecked_ok_iff acl s s' fetch amount mh,
+   fun h hm hf => loadChecked_error_of_missing_head acl s fetch amount mh h hm hf⟩
+
+/-- Refutation witness for the tree before that repair: the 4-entry chain persisted and cached under
+its head, loaded while the fetcher brings nothing (its context has ended): success over an empty
+listing; now an error, and the same load with a working fetcher lists the four entries (replayed on
+the real store: corpus/C05/f32) -/
+theorem reload_under_an_ended_context_reported_success_before_the_fix :
+    LoadExample.listing (Store.load LoadExample.acl (LoadExample.fresh 4) (fun _ => []) (-1)) = .ok [] ∧
+    LoadExample.listing (Store.loadChecked LoadExample.acl (LoadExample.fresh 4) (fun _ => []) (-1)) = .error .notFound ∧
+    LoadExample.listing (Store.loadChecked LoadExample.acl (LoadExample.fresh 4)
+      (LoadExample.fetchN LoadExample.chain4 (-1)) (-1)) = .ok [1, 2, 3, 4] :=
+  load_reported_success_over_nothing_before_the_fix
 
 end Orbit.C05
